@@ -742,14 +742,12 @@ class Program:
         from . import inline as _inline
         cache = self.__dict__.setdefault("_inlined", {})
         if isinstance(accept, str):
-            k = (fn.key, depth, accept)
+            k = (fn.key, len(fn.blocks), tuple(fn.rec.get("inlined") or ()), depth, accept)
             if k not in cache:
                 cache[k] = _inline.inline(self, fn, depth, _inline.containing(self, accept))
             return cache[k]
-        k = (fn.key, depth, id(accept))
-        if k not in cache:
-            cache[k] = _inline.inline(self, fn, depth, accept)
-        return cache[k]
+        # (a callable filter has no stable identity -- `id()` of a temporary lambda is reused -- so such views are not cached)
+        return _inline.inline(self, fn, depth, accept)
 
     def flattened(self, fn, anchor_rx, depth=2, combinators=False):
         """fn with (1) local helpers containing the anchor calls spliced in and (2) calls of closure literals handed to
@@ -759,7 +757,7 @@ class Program:
         becomes an ordinary call that (2) resolves; cached"""
         from . import inline as _inline
         cache = self.__dict__.setdefault("_flat", {})
-        k = (fn.key, anchor_rx, depth, combinators)
+        k = (fn.key, len(fn.blocks), tuple(fn.rec.get("inlined") or ()), anchor_rx, depth, combinators)
         if k not in cache:
             acc = _inline.containing(self, anchor_rx, closures=combinators)
             g = _inline.inline(self, fn, depth, acc)
@@ -782,7 +780,7 @@ class Program:
         statements a rule looks for may have been moved -- not the callees the rule anchors on)"""
         from . import inline as _inline
         cache = self.__dict__.setdefault("_ainlined", {})
-        k = (fn.key, depth, containing)
+        k = (fn.key, len(fn.blocks), tuple(fn.rec.get("inlined") or ()), depth, containing)
         if k not in cache:
             acc = None
             if containing is not None:
